@@ -202,11 +202,35 @@ def check_data_home(ctx):
               f"code: {show(ex[0].data['pos'][0], 200) if ex and ex[0].data['pos'] else None}\nspec: {show(want, 200)}", rfi.loc(), rfi.qualname, 'slot')
 
 
+def check_remote_unpack(ctx):
+    """the unpack flag of a remote dataset is honoured on both paths (fresh download, cache hit): the two columns of the same array"""
+    ctx.rule('C18.6', 'load_csv_dataset_from_remote returns the parsed (n, 2) array, or its two columns under unpack_dataset_columns, on the download path and on '
+                      'the cache-hit path alike')
+    from . import c19
+    for avail, path_name, source in ((False, 'fresh download', 'numpy.loadtxt'), (True, 'cache hit', 'pickle.load')):
+        for flag in (False, True):
+            fi, ev, res, args = c19.evaluate(ctx, {'download_if_missing': Const(True), 'download_even_if_available': Const(False), 'validate_checksum': Const(True),
+                                                   'unpack_dataset_columns': Const(flag)}, available=avail)
+            src = [e for e in ev.events if e.kind == 'lib' and e.data['name'] == source]
+            ok = len(src) == 1
+            if ok:
+                arr = src[0].data['result']
+                if flag:
+                    ok = isinstance(res, Tup) and len(res.items) == 2 and all(isinstance(arr_term(i), Term) and arr_term(i).head == 'col' and
+                                                                              veq(arr_term(i).args[0], arr) for i in res.items) \
+                        and [arr_term(i).args[1].const() for i in res.items] == [0, 1]
+                else:
+                    ok = veq(res, arr) or veq(arr_term(res), arr)
+            ctx.check(ok, 'C18.6', f"remote dataset, {path_name}, unpack={flag}: returns " + ('the two columns' if flag else 'the array'), show(res, 200), fi.loc(),
+                      fi.qualname, f"remote-unpack:{avail}:{flag}")
+
+
 def run(ctx):
     check_reachability(ctx)
     check_remote(ctx)
     check_bundled(ctx)
     check_data_home(ctx)
+    check_remote_unpack(ctx)
     ctx.rule('C18.2', 'unknown names raise ValueError (the failed attribute lookup is converted; C20.1) and no documented name relies on that path')
     lfi = ctx.prog.func(BASE + '.load_dataset')
     raises, returned, _ = unknown_name_outcome(ctx.prog)
